@@ -425,6 +425,42 @@ func (fx *Fx) runLoop(st *State, lp *loopParts) {
 			}
 		}
 	}
+	if lp.spec != nil && lp.spec.SelectOnly && !c.dry {
+		// the loop waits only in its selects, where every alternative is watched: a receive statement in a case body
+		// would park the goroutine on one channel while the others are ignored
+		comm := map[ast.Node]bool{}
+		nrecv := 0
+		ast.Inspect(lp.body, func(n ast.Node) bool {
+			switch x := n.(type) {
+			case *ast.FuncLit:
+				return false
+			case *ast.CommClause:
+				if x.Comm != nil {
+					comm[x.Comm] = true
+				}
+			case *ast.ExprStmt:
+				if comm[x] {
+					for _, st := range []ast.Node{} {
+						_ = st
+					}
+					return false
+				}
+			case *ast.AssignStmt:
+				if comm[x] {
+					return false
+				}
+			case *ast.UnaryExpr:
+				if x.Op == token.ARROW {
+					nrecv++
+					c.oblige(loopHead, "blocking", fmt.Sprintf("%s.receive%d-outside-select", tag, nrecv), "false", "the loop blocks only in its selects: no receive statement outside their comm clauses ("+fx.exprText(x)+")", fx.w.pos(x.Pos()))
+				}
+			}
+			return true
+		})
+		if nrecv == 0 {
+			c.oblige(loopHead, "blocking", tag+".blocks-only-in-select", "true", "the loop blocks only in its selects", fx.w.pos(lp.node.Pos()))
+		}
+	}
 	if lp.spec != nil && lp.spec.Cancels != "" && !c.dry {
 		// every select the loop blocks in (at the top level of its body) offers the cancellation alternative
 		nsel := 0
